@@ -223,12 +223,12 @@ PENDING_REASON = "check not yet built in this round (planned in DESIGN.md §3); 
 # additions made while strengthening the checks against seeded changes (appended to the level text)
 EXTRA = {
     "C01": " Piola-mapped coefficients (contravariant, covariant, double co-/contravariant, covariant-contravariant, L2) are part of the meaning part: the pool holds physical data and the reference value read after pullback is the inverse Piola map of it.",
-    "C02": " Also: two derivatives with different user-supplied coefficient relations in one expansion, a fixed rank-2 component or a tuple of components as the differentiation target, and the chain rule through exp/ln/sin/cos/tan/sinh/cosh/tanh/asin/atan at their rational points.",
-    "C03": " Also: rank-3 results (grad/nabla_grad of rank-2 fields, second gradients), geometric terminals under the operators, and the chain rule through the elementary functions at their rational points.",
-    "C04": " Also: several differentiation variables in one expansion (mixed partials), variables that wrap a spatial derivative of a non-terminal (directions = spatial directions followed by the variables' components), variable(.. grad(u) ..) energies, and the elementary functions at their rational points.",
-    "C05": " Also: zeros carrying free indices of different extents under binding in either index order, and the elementary functions at their rational points.",
+    "C02": " Also: two derivatives with different user-supplied coefficient relations in one expansion, a fixed rank-2 component or a tuple of components as the differentiation target, and the chain rule through exp/ln/sin/cos/tan/sinh/cosh/tanh/asin/atan at their rational points. atan2; second derivatives with both operands depending on the coefficient; powers whose exponent depends on the coefficient (series over Q(i)[ln 2]).",
+    "C03": " Also: rank-3 results (grad/nabla_grad of rank-2 fields, second gradients), geometric terminals under the operators, and the chain rule through the elementary functions at their rational points. Powers whose exponent varies in space (series over Q(i)[ln 2]); atan2.",
+    "C04": " Also: several differentiation variables in one expansion (mixed partials), variables that wrap a spatial derivative of a non-terminal (directions = spatial directions followed by the variables' components), variable(.. grad(u) ..) energies, and the elementary functions at their rational points. Powers whose exponent depends on the variable.",
+    "C05": " Also: zeros carrying free indices of different extents under binding in either index order, and the elementary functions at their rational points. atan2 (also of two literals); component tensors over indexed list tensors whose items share a free index; unary tensor operators on operands with free indices.",
     "C09": " Also: compound algebra over K.J (dot, det, sym, skew, cofac, ...) whose lowering instantiates one summation index object with several partners.",
-    "C10": " Also: zeros with two free indices of different extents hidden in conditionals and closed by transposing component tensors.",
+    "C10": " Also: zeros with two free indices of different extents hidden in conditionals and closed by transposing component tensors. Component tensors that survive inside a conditional under an enclosing component tensor whose subscript re-uses the inner bound index (capture), shadowed binders subscripted with fixed indices, a closed inner sum over the same index object as the enclosing sum.",
     "C12": " Also: placement histories that put a digit boundary inside the objects of several counters at once (constants crosswise on two meshes), coefficients on mixed spaces over a MeshSequence and their fixed components.",
     "C13": " Also: scalar-literal constructor calls (IntValue/FloatValue/ComplexValue/as_ufl x int, bool, numpy integer, float, numpy float, complex, numpy complex x the flyweight cache of IntValue as state), including purely imaginary numbers with signed zero real part.",
     "C16": " Also: transparent wrappers (variable, conj, real, imag, neg, indexed, index sums) over sums of terms of different arity.",
@@ -237,9 +237,11 @@ EXTRA = {
     "C19": " Also: DAGTraverser rules with keyword context (different subsets of keywords on different paths, one traverser reused across roots, shared caches): the memo key must be (node, full ordered context); the same rule tables run through MultiFunction + map_expr_dag per context.",
     "C22": " Also: mixed elements whose sub-elements have reference size != physical size (symmetric tensors, Piola vectors on an immersed mesh) in non-last position, with replace_argument True and False.",
     "C28": " Also: weighted sums w1*x + w2*y + w3*z with pairwise different non-unit weights over components of different kinds (Form, Action, Cofunction, Matrix-Action, ...) in every order, followed by derivative / action / adjoint / replace, with histories in which components vanish under the operation (all eight vanishing patterns); TLC checks D(w1A+w2B+w3C) = w1DA+w2DB+w3DC on the model.",
-    "C21": " Also: images that are numbers or zero tensors, and shape-changing maps of equal rank (2 -> 3, 2x3 -> 3x2).",
+    "C24": " Also: an index label re-used in nested scopes (a closed inner sum over i inside a summand summed over i).",
+    "C08": " Symmetric elements are modelled as declared (ordered dictionaries from block components to sub-elements, any block shape); TLC proves that the declaration order is irrelevant.",
+    "C21": " Also: images that are numbers or zero tensors, and shape-changing maps of equal rank (2 -> 3, 2x3 -> 3x2). replace applied to unexpanded Gateaux derivatives with images that contain the differentiation variable.",
     "C25": " Universes with directional spaces of several dimensions at once (related only through an isotropic space between them).",
-    "C27": " Form histories include a FormSum of cofunctions, 1.0*a and measures reconfigured with the user's metadata dicts plus degree=/scheme=.",
+    "C27": " Form histories include a FormSum of cofunctions, 1.0*a and measures reconfigured with the user's metadata dicts plus degree=/scheme=. Forms that differ only in an argument slot of a nested external operator (eq/equals must not re-point operands); list-valued metadata entries.",
     "C29": " When the code departs from the transcription the order laws are judged on the real comparator over the universe (tie vs equality, antisymmetry, transitivity); a third conformance pass shares sub-objects within each term only.",
 }
 
